@@ -11,16 +11,16 @@ EXTENDS Naturals, FiniteSets, TLC
 
 Kinds == {"absent", "file", "dir"}
 VARIABLES mode,          \* "sign" | "report"
-          force, sidecarFlag, sameAsInput,
+          force, sidecarFlag, sameAsInput, remote,      \* remote: -r URL (a remote manifest reference is embedded)
           output, sidecar,     \* pre-existing state of the output path and of output.with_extension("c2pa")
           outputAfter, sidecarAfter, inputAfter,   \* "unchanged" | "replaced" | "created" | "removed"
           exit           \* "pending" | "ok" | "fail"
-vars == <<mode, force, sidecarFlag, sameAsInput, output, sidecar, outputAfter, sidecarAfter, inputAfter, exit>>
+vars == <<mode, force, sidecarFlag, sameAsInput, remote, output, sidecar, outputAfter, sidecarAfter, inputAfter, exit>>
 
-Init == /\ mode \in {"sign", "report"} /\ force \in BOOLEAN /\ sidecarFlag \in BOOLEAN /\ sameAsInput \in BOOLEAN
+Init == /\ mode \in {"sign", "report"} /\ force \in BOOLEAN /\ sidecarFlag \in BOOLEAN /\ sameAsInput \in BOOLEAN /\ remote \in BOOLEAN
         /\ output \in Kinds /\ sidecar \in Kinds
         /\ (sameAsInput => output = "file" /\ mode = "sign")
-        /\ (mode = "report" => ~sidecarFlag /\ ~sameAsInput)
+        /\ (mode = "report" => ~sidecarFlag /\ ~sameAsInput /\ ~remote)
         /\ outputAfter = "unchanged" /\ sidecarAfter = "unchanged" /\ inputAfter = "unchanged" /\ exit = "pending"
 
 \* signing mode, as coded after the S15 repair (an existing sidecar is protected like the output)
@@ -42,7 +42,7 @@ RunReport ==
      ELSE IF output = "dir" /\ ~force THEN exit' = "fail" /\ UNCHANGED <<outputAfter, sidecarAfter, inputAfter>>
      ELSE /\ exit' = "ok" /\ outputAfter' = (IF output = "absent" THEN "created" ELSE "replaced")
           /\ UNCHANGED <<sidecarAfter, inputAfter>>
-Next == ((RunSign \/ RunReport) /\ UNCHANGED <<mode, force, sidecarFlag, sameAsInput, output, sidecar>>) \/ (exit # "pending" /\ UNCHANGED vars)
+Next == ((RunSign \/ RunReport) /\ UNCHANGED <<mode, force, sidecarFlag, sameAsInput, remote, output, sidecar>>) \/ (exit # "pending" /\ UNCHANGED vars)
 Spec == Init /\ [][Next]_vars
 
 \* without force no pre-existing entry is modified, replaced or deleted
